@@ -2,7 +2,7 @@ CONSTANTS
   Triggers = {"unit", "u8", "u16", "u32", "U53", "datetime", "generic_param", "mapped_bytes", "mapped_date", "user_enum"}
   Wrappers = {"vec", "option", "mapv", "array", "garg", "box"}
   MaxDepth = 3
-  Positions = {"field", "payload", "alias", "vfield", "garg_pos"}
+  Positions = {"field", "field_default", "vfield_default", "payload", "alias", "vfield", "garg_pos"}
   Modes = {"single", "multi"}
 INIT Init
 NEXT Next
